@@ -60,6 +60,7 @@ func instrSinks(ins []ssa.Instruction, note string) []ir.Sink {
 }
 
 func runC15(c *core.Ctx) {
+	checkCalleeListsFresh(c)
 	hit := c.Fn(pkLedger, "StateStore.HandleInvokeTransaction")
 	invoke := eng.Obj(c, pkNative, "NativeService.Invoke")
 	commit := eng.Obj(c, pkStorage, "CacheDB.Commit")
